@@ -739,18 +739,11 @@ func (w *trWorld) indexPath(rep *trReplica, t *crdt.Tree, idx int) {
 		if back != idx {
 			tag := ""
 			if tp.Node.IsText() && tp.Node.Parent != nil {
-				// TreePosToPath takes the RAW child offset (tombstones included) into the tombstone-FILTERED child list
-				for _, sib := range tp.Node.Parent.Children(true) {
-					if sib == tp.Node {
-						break
-					}
-					if sib.Value.IsRemoved() {
-						tag = "KNOWN[c19-path-tombstone] "
-					}
-				}
-				// and (upstream TODO in TreePosToPath/PathToTreePos) a parent holding text AND elements: the path's last
+				// (a tombstoned left sibling used to be tagged c19-path-tombstone here: TreePosToPath took the raw child offset
+				// into the tombstone-filtered child list; repaired, hooks/fix-c19-path-tombstone.patch, c7104fed)
+				// upstream TODO in TreePosToPath/PathToTreePos: a parent holding text AND elements: the path's last
 				// component is a character offset one way and a child offset the other way
-				if tag == "" && !tp.Node.Parent.HasTextChild() {
+				if !tp.Node.Parent.HasTextChild() {
 					tag = "KNOWN[c19-path-mixed-content] "
 				}
 			}
@@ -1024,11 +1017,11 @@ func (w *trWorld) exec(line string) (err error) {
 //	c19-surrogate             a text node whose cached VisibleLength differs from its UTF-16 length (SplitText stores
 //	                          len(leftRune), a RUNE count, for the left half), or a text node holding U+FFFD (no generated
 //	                          content contains it: SplitText cut a surrogate pair and re-decoded both halves)
-//	c19-stale-visible-length  a root whose cached VisibleLength differs from the size of its own visible XML:
-//	                          SplitElement of a tombstoned element adds the split's padded length to the ancestors'
-//	                          VisibleLength
+//
+// (c19-stale-visible-length - a root whose cached VisibleLength differs from the size of its own visible XML after SplitElement of
+// a tombstoned element - is repaired, hooks/fix-c19-split-tombstoned-visible-length.patch, 7d079773: a recurrence is a plain violation)
 func (w *trWorld) trSymptoms() string {
-	surrogate, stale := false, false
+	surrogate := false
 	scan := func(t *crdt.Tree) {
 		if t == nil {
 			return
@@ -1038,9 +1031,6 @@ func (w *trWorld) trSymptoms() string {
 				surrogate = true
 			}
 		})
-		if toks, ok := trTokens(t.ToXML()); ok && t.Root().Index.VisibleLength != len(toks)-2 {
-			stale = true
-		}
 	}
 	for _, r := range w.ord {
 		_ = safely(func() {
@@ -1050,11 +1040,8 @@ func (w *trWorld) trSymptoms() string {
 			}
 		})
 	}
-	switch {
-	case surrogate:
+	if surrogate {
 		return "KNOWN[c19-surrogate] "
-	case stale:
-		return "KNOWN[c19-stale-visible-length] "
 	}
 	return ""
 }
